@@ -192,7 +192,7 @@ def run(vc):
               "unsorted line index; three case orders each; returned dict and result tables; a second analysis started from the results "
               "of the first (tables kept)",
         script="from replaylib.contingency import main, main_tables\nimport sys\n"
-               "for f in (main, main_tables):\n    try:\n        f()\n    except SystemExit as e:\n        if e.code:\n            raise\n",
+               "from replaylib import run_all\nrun_all(main, main_tables)\n",
         timeout=1500))
 
 
